@@ -371,6 +371,8 @@ impl<'a> Lexer<'a> {
 
     fn scan_number(&mut self, start: usize) -> Option<LexResult<'a>> {
         let end = self.find_next_index(|c| !(c.is_ascii_alphanumeric() || c == '.'));
+        #[cfg(feature = "verif")]
+        crate::verif::pre("lexer.scan_number", self.buf.get(start..end).is_some());
         let text = self.substr(start..end);
         text.parse::<f64>().ok().map(|n| {
             self.maybe_followed_by_apostrophe_suffix(LexResult {
@@ -393,6 +395,8 @@ impl<'a> Lexer<'a> {
 
     fn make_token_from(&self, start: usize, len: usize, id: TokenType<'a>) -> Token<'a> {
         let end = start + len;
+        #[cfg(feature = "verif")]
+        crate::verif::pre("lexer.make_token_from", self.buf.get(start..end).is_some());
         Token::new(id, self.substr(start..end), self.make_range(start, end))
     }
 
@@ -421,6 +425,8 @@ impl<'a> Lexer<'a> {
 
     fn scan_word(&mut self, start: usize) -> LexResult<'a> {
         let end = self.find_next_word_end();
+        #[cfg(feature = "verif")]
+        crate::verif::pre("lexer.scan_word", self.buf.get(start..end).is_some());
         let text = self.substr(start..end);
         Some(text)
             .filter(|s| s.chars().all(|c| c.is_alphabetic() || c == '\''))
@@ -441,6 +447,8 @@ impl<'a> Lexer<'a> {
 
     fn scan_keyword(&self, start: usize) -> Option<LexResult<'a>> {
         let end = self.find_next_word_end();
+        #[cfg(feature = "verif")]
+        crate::verif::pre("lexer.scan_keyword", self.buf.get(start..end).is_some());
         let text = self.substr(start..end);
         match_keyword(text).map(|id| LexResult {
             token: Token::new(id, text, self.make_range(start, end)),
@@ -482,11 +490,18 @@ impl<'a> Lexer<'a> {
             .find(|&(_, c)| c == close_char)
             .map(|(i, _)| i)
         {
+            #[cfg(feature = "verif")]
+            crate::verif::pre(
+                "lexer.scan_delimited.closed",
+                self.buf.get((open + 1)..close).is_some() && self.buf.get(open..(close + 1)).is_some(),
+            );
             let token_type = factory(self.substr((open + 1)..close));
             let end = close + 1;
             let text = self.substr(open..end);
             (token_type, text, end)
         } else {
+            #[cfg(feature = "verif")]
+            crate::verif::pre("lexer.scan_delimited.open", self.buf.get(open..).is_some());
             (TokenType::Error(error), self.substr(open..), self.buf.len())
         };
         let current_line = self.line + newlines;
@@ -530,6 +545,8 @@ impl<'a> Lexer<'a> {
     ) -> Option<LexResult<'a>> {
         debug_assert!(!text.contains('\n'));
         debug_assert!(text.is_ascii());
+        #[cfg(feature = "verif")]
+        crate::verif::pre("lexer.scan_for_text", self.buf.get(start..).is_some());
         let buf_text = self.substr(start..);
         buf_text.strip_prefix(text).map(|_| LexResult {
             token: self.make_token_from(start, text.len(), token_type),
@@ -598,6 +615,8 @@ impl<'a> Lexer<'a> {
 
     fn match_loop(&mut self) -> Option<<Self as Iterator>::Item> {
         loop {
+            #[cfg(feature = "verif")]
+            crate::verif::lex_tick();
             if let Some((start, start_char)) = find_word_start(&mut self.char_indices) {
                 let LexResult {
                     token,
